@@ -1,18 +1,26 @@
 """C14 - candidate cycle collections are sound, nested and sufficient."""
 from lib import engine
+from lib.core import tier
+from units import k14_candidates
 
-LEVEL = "exploration"
+LEVEL = "other"
 EXPLANATION = (
-    "Contract K14 is enforced as a BOUNDED stand-in on the real HortonCyclesBuilder / FVSCyclesBuilder / "
+    "PROVED by CBMC (DFCC, two loop contracts, ghost edge): SPTree::create_candidate_cycles - the function all three "
+    "builders obtain their candidates from - records as tree edges exactly the predecessor edges of the tree nodes and "
+    "emits a candidate for an edge IF AND ONLY IF it is a non-tree edge whose endpoints both have tree nodes and whose root "
+    "paths start with different vertices; the candidate carries this tree's id, the edge and the weight "
+    "w(e)+d(root,src)+d(root,tgt) (K14a; tree given by tables that are K12's postcondition; table caps n<=4,m<=7, thorough "
+    "8/14).  Everything else is BOUNDED: Contract K14 is enforced as a BOUNDED stand-in on the real HortonCyclesBuilder / FVSCyclesBuilder / "
     "ISOCyclesBuilder: every candidate (tree, edge) has both endpoints in the tree, its two root paths are "
     "vertex-disjoint except at the root (a simple cycle through the root), the recorded weight equals the true "
     "cycle weight and w(e)+d(r,u)+d(r,v) (Floyd-Warshall); FVS and ISO collections are subsets of Horton's as "
     "(root vertex, edge) pairs; greedy selection by weight under GF(2) independence from each collection reaches "
-    "the brute-force optimum weight and dimension.  The builders are Boost.Graph templates CBMC cannot parse; no "
-    "deductive content is claimed.")
+    "the brute-force optimum weight and dimension.  The builders themselves (greedy_fvs choice, isometric-cycle graph) "
+    "are Boost.Graph templates CBMC cannot parse.")
 
 
 def run(rep):
+    engine.run_units(rep, k14_candidates.units(tier()))
     engine.run_native(rep, "e3_components", driver="e3_components[C14]", args=["--only", "C14"],
                       functions={"HortonCyclesBuilder": "bounded", "FVSCyclesBuilder": "bounded", "ISOCyclesBuilder": "bounded",
                                  "SPTree::create_candidate_cycles": "bounded"},
